@@ -25,7 +25,12 @@ Transmissions between reads ("txmid"): between two reads the program starts a tr
 object's public transmit side (send_dali_command / send_device_info_query / send_device_settings /
 reset_dali_response) on a private asyncio loop; the queues are collected first, the transmission runs until it waits
 for the gateway and is cancelled; the items delivered from the receive stream must still be the reference's.
-Both have a deterministic sweep (every frame kind cut at every position x every partner frame kind / transmit
+Receiver histories ("hist"): before the judged stream is fed, the SAME protocol object has completed public operations
+(send_device_info_query / send_device_settings / send_dali_command with the gateway's reply fed through data_received
+while the operation waits, reset_dali_response) and read earlier streams of whole frames; what was delivered so far is
+collected, then the judged stream (all id nibbles / payloads free, also the history's replies once more) is fed whole
+and in chunks: the items must be the reference's, exactly as for a fresh receiver.
+All have a deterministic sweep (every frame kind cut at every position x every partner frame kind / transmit
 operation) and a Hypothesis part over the grammar streams.
 """
 import logging
@@ -47,7 +52,9 @@ RULE = ("one case = (protocol, byte stream, two chunkings); streams are drawn fr
         "the harness advances (part of the case); multi: one case = (2-3 receivers with their streams, read schedule), "
         "non-trivial = some receiver is left inside a frame the reference delivers while another receiver reads; txmid: "
         "one case = (protocol, stream, reads, transmit operations before given reads), non-trivial = a transmission "
-        "starts at an offset strictly inside a frame the reference delivers")
+        "starts at an offset strictly inside a frame the reference delivers; hist: one case = (protocol, history of "
+        "operations with their replies and earlier streams, judged stream, reads), non-trivial = the history contains "
+        "an operation and the reference delivers an item from the judged stream")
 ASSUMPTIONS = [
     "resynchronisation rule (design choice, taken from the receivers' own state machines on well-formed prefixes): a "
     "LUBA frame dropped for a bad checksum or an unknown command code is consumed as a whole (length+4 bytes), the "
@@ -73,6 +80,12 @@ ASSUMPTIONS = [
     "waits for the gateway's confirmation/reply; whatever the transmit side itself does or raises is not judged here "
     "(C15-C18), only what reception delivers around it.  The confirmation a real gateway would send is therefore never "
     "needed; a transmission that runs to completion with scripted confirmations belongs to the driver scenarios",
+    "hist: the bytes of a history (replies, earlier streams) are whole frames none of which is malformed for its type, so "
+    "the judged stream starts on a frame boundary; an operation is started through the protocol object, the reply is "
+    "fed while it waits, it runs to its end (or is cancelled when the reply does not satisfy it); what the operation "
+    "returns or raises is not judged (C15-C18); everything delivered during the history is collected before the "
+    "judged stream starts; observed commands are compared by frame bytes, so a device type remembered from the "
+    "history's last observed frame does not matter",
     "multi: receiver objects are created up front, each is only ever given bytes of its own stream; reads of different "
     "receivers never overlap in time (one thread, one event loop - as in the drivers)",
     "a transmit confirmation is compared by tx_id; its decoded message is compared (frame bytes) only when the "
@@ -342,6 +355,8 @@ def run_case(case):
         return _judge_multi(case) or []
     if case.get("kind") == "txmid":
         return _judge_txmid(case) or []
+    if case.get("kind") == "hist":
+        return _judge_hist(case) or []
     proto = case["proto"]
     stream = bytes.fromhex(case["stream"])
     cutlists = case.get("cuts", [])
@@ -684,6 +699,306 @@ def classify2(case):
     return ["multi:" + "+".join(sorted(r["proto"] for r in case["rx"]))]
 
 
+# ------------------------------------------------------------- receiver histories ----
+# "For every byte stream ...": what a receiver delivers from a stream that starts on a frame boundary is a function of
+# that stream alone - whatever the receiver object has been used for before.  hist: before the judged stream is fed,
+# the SAME protocol object completes public operations that may store state - send_device_info_query /
+# send_device_settings / send_dali_command with the gateway's reply fed through data_received while the operation
+# waits, reset_dali_response, and earlier receive streams made of whole frames; then everything delivered so far is
+# collected (and not judged), and the judged stream is fed in chunks: the items must be the reference's.
+def _complete(p, proto, op, cmdno, reply, clock):
+    """Start one operation, feed the gateway's reply while it waits, let it finish (cancel it if the reply does not
+    satisfy it).  -> "completed" / "gave-up" / "raised" (not judged: C15-C18); an exception out of data_received is
+    returned as ("rx", exc)."""
+    import asyncio
+    if op == "resetq":
+        p.reset_dali_response()
+        reply_exc = None
+        try:
+            with clock:
+                p.data_received(reply)
+        except Exception as e:  # noqa
+            reply_exc = e
+        return ("rx", reply_exc) if reply_exc is not None else "completed"
+    cmds = _tx_commands()
+    if op == "send":
+        coro = p.send_dali_command(cmds[cmdno % len(cmds)])
+    elif op == "info":
+        coro = p.send_device_info_query()
+    elif op == "settings":
+        coro = p.send_device_settings()
+    else:
+        raise ValueError(op)
+    box = {}
+
+    async def go():
+        t = asyncio.ensure_future(coro)
+        for _ in range(4):
+            await asyncio.sleep(0)
+        try:
+            with clock:
+                p.data_received(reply)
+        except Exception as e:  # noqa: judged by the caller
+            box["rx"] = e
+        for _ in range(12):
+            if t.done():
+                break
+            await asyncio.sleep(0)
+        how = "completed" if t.done() else "gave-up"
+        if not t.done():
+            t.cancel()
+        try:
+            await t
+        except asyncio.CancelledError:
+            pass
+        except Exception as e:  # noqa
+            if library_frame(e.__traceback__) is None:
+                raise
+            how = "raised"
+        return how
+    how = _loop().run_until_complete(go())
+    if "rx" in box:
+        return ("rx", box["rx"])
+    return how
+
+
+def feed_hist(proto, prelude, chunks, gaps=(0.0,)):
+    """-> (queues delivered from the judged chunks, exc, [how each prelude step ended])"""
+    p, child = _new(proto)
+    p.transport = _Sink()
+    clock = FakeClock()
+    ends = []
+    for step in prelude:
+        if step[0] == "rx":
+            try:
+                with clock:
+                    p.data_received(bytes.fromhex(step[1]))
+            except Exception as e:  # noqa
+                if library_frame(e.__traceback__) is None:
+                    raise
+                return None, ("prelude", e), ends
+            ends.append("rx")
+        else:
+            _op, op, cmdno, reply = step
+            r = _complete(p, proto, op, cmdno, bytes.fromhex(reply), clock)
+            if isinstance(r, tuple):
+                if library_frame(r[1].__traceback__) is None:
+                    raise r[1]
+                return None, ("prelude", r[1]), ends
+            ends.append(op + ":" + r)
+        clock.advance(0.25)
+    _collect(proto, p, child)           # delivered by the history: collected by the program, not judged here
+    exc = None
+    off = 0
+    for k, ch in enumerate(chunks):
+        if k:
+            clock.advance(gaps[(k - 1) % len(gaps)])
+        try:
+            with clock:
+                p.data_received(ch)
+        except Exception as e:  # noqa: the property forbids any exception here
+            exc = (off, e)
+            break
+        off += len(ch)
+    if exc is not None and library_frame(exc[1].__traceback__) is None:
+        raise exc[1]
+    return _collect(proto, p, child), exc, ends
+
+
+def _prelude_ok(proto, prelude):
+    """Every byte string of the history is made of whole frames none of which is malformed for its type (harness
+    precondition: the judged stream starts on a frame boundary)."""
+    for step in prelude:
+        b = bytes.fromhex(step[1] if step[0] == "rx" else step[3])
+        ref = _deframe(proto, b)
+        if ref["malformed"] or ref["pending"]:
+            return False
+        if proto == "luba" and any(t[0] in ("bad-length", "truncated") for t in ref["trace"]):
+            return False
+    return True
+
+
+def _prelude_str(prelude):
+    return " ; ".join("earlier stream of %d bytes" % (len(st_[1]) // 2) if st_[0] == "rx" else
+                      "%s answered with [%s]" % ({"send": "send_dali_command", "info": "send_device_info_query",
+                                                  "settings": "send_device_settings",
+                                                  "resetq": "reset_dali_response"}[st_[1]], st_[3]) for st_ in prelude)
+
+
+def _judge_hist(case):
+    proto, stream = case["proto"], bytes.fromhex(case["stream"])
+    ref = _deframe(proto, stream)
+    if ref["malformed"] or not _prelude_ok(proto, case["prelude"]):
+        return None
+    gaps = case.get("gaps") or [0.0]
+    out = []
+    for chunks in ([stream] if stream else [], _chunks(stream, case["cuts"])):
+        got, exc, ends = feed_hist(proto, case["prelude"], chunks, gaps)
+        how = "receiver that before did: %s (%s); then reads of %r bytes" % (
+            _prelude_str(case["prelude"]), ", ".join(ends), [len(c) for c in chunks][:24])
+        if exc is not None:
+            off, e = exc
+            where = "while the history's bytes were read" if off == "prelude" else "in the read starting at offset %d" % off
+            out.append(("C19:%s:data_received-raised:%s@%s" % (proto, type(e).__name__, library_frame(e.__traceback__)),
+                        "%s: data_received raised %r %s" % (how, e, where)))
+            break
+        vs = _compare(proto, ref, got, how, stream)
+        if vs:
+            plain, exc2 = feed(proto, stream, chunks, gaps)
+            if exc2 is None and not _compare(proto, ref, plain, how, stream):
+                vs = [("C19:%s:receiver-history-changes-deframing" % proto,
+                       "%s; a fresh receiver fed the same reads gives the reference's items.  %s"
+                       % (how, _compare(proto, ref, got, "after that history", stream)[0][1][:700]))]
+            out.extend(vs)
+            break
+    seen = {}
+    for sig, msg in out:
+        seen.setdefault(sig, msg)
+    return list(seen.items())
+
+
+def _hist_nontrivial(case):
+    """an operation with its reply is part of the history and the reference delivers an item afterwards"""
+    if case["kind"] != "hist":
+        return nontrivial2(case)
+    ref = _deframe(case["proto"], bytes.fromhex(case["stream"]))
+    return (not ref["malformed"] and any(st_[0] == "op" for st_ in case["prelude"])
+            and any(t[0] == "delivered" for t in ref["trace"]))
+
+
+def _hist_classify(case):
+    if case["kind"] != "hist":
+        return classify2(case)
+    labs = ["hist:%s:%s" % (case["proto"], "earlier-stream" if st_[0] == "rx" else st_[1]) for st_ in case["prelude"]]
+    ref = _deframe(case["proto"], bytes.fromhex(case["stream"]))
+    labs += ["hist:%s:then:%s" % (case["proto"], t[2]) for t in ref["trace"] if t[0] == "delivered"]
+    return labs
+
+
+def _hist_replies(proto):
+    """(operation, reply) pairs of the deterministic part: the reply the gateway gives, and other well-formed frames."""
+    f = RW.sci_frame
+    cmds = None
+    if proto == "sci":
+        out = []
+        for idn in (0, 3, 15):
+            for code in (0, 1):
+                out.append(("info", f((idn << 4) | code, 0, 0, 0)))
+        out.append(("info", f(0x57, 0, 0, 3)))                       # an error report answers the query
+        out.append(("info", f(0x20, 0, 0, 0) + f(0x91, 0, 0, 0)))    # two status packets
+        out.append(("send", f(0x40, 0, 0, 0)))
+        out.append(("send", f(0x60, 0, 0, 0) + f(0x61, 0, 0, 0)))    # confirmation + explicit DALI NO
+        out.append(("send", f(0x70, 0, 0, 0) + f(0x72, 0, 0, 0x33)))  # confirmation + backward frame
+        out.append(("resetq", f(0xA0, 0, 0, 0)))
+        return out
+    info = [list(range(1, 21)), [0] * 20, [0xFF] * 20, [0, 0, 0, 0, 0, 1] + [2] * 8 + [3, 4] + [0x01, 0x70, 0xBE, 0x10]]
+    out = [("info", RW.luba_frame(0x21, d)) for d in info]
+    out.append(("info", RW.luba_frame(0x21, info[0]) * 2))
+    out.append(("info", RW.luba_frame(0x2B, [0, 0x12, 0])))          # a settings reply answers the info query
+    out.append(("settings", RW.luba_frame(0x2B, [0, 0x12, 0])))
+    out.append(("settings", RW.luba_frame(0x2B, [1, 2, 3])))
+    out.append(("settings", RW.luba_frame(0x21, info[0])))
+    out.append(("send", RW.luba_event_sent(7, POOL16[1])))
+    out.append(("send", RW.luba_event_sent(8, [0x03, 0x90]) + RW.luba_event_received([0x44])))
+    out.append(("resetq", RW.luba_event_received([0x5A])))
+    return out
+
+
+def _hist_sweep_cases():
+    kinds = _frame_kinds()
+    good = {"luba": RW.luba_event_received([0xA5]), "sci": RW.sci_frame(0x02, 0, 0, 0x5A)}
+    for proto in ("luba", "sci"):
+        replies = _hist_replies(proto)
+        judged = [(n, fr + good[proto]) for n, fr in kinds[proto]]
+        judged += [(n, fr * 2 + good[proto] + fr) for n, fr in kinds[proto]]
+        # the frames the history saw, again
+        judged += [("history-reply-again", r + good[proto] + r) for _op, r in replies]
+        if proto == "sci":
+            # every status byte (all id nibbles x all codes), error frames with every error number
+            for b0 in range(256):
+                lo = 0
+                fr = RW.sci_frame(b0, *POOL24[0]) if b0 & 15 == 8 else \
+                    RW.sci_frame(b0, 0, POOL16[0][0] if b0 & 15 == 3 else 0, POOL16[0][1] if b0 & 15 == 3 else lo)
+                judged.append(("status-byte", fr + good[proto]))
+                if b0 & 15 == 7:
+                    judged.append(("error", b"".join(RW.sci_frame(b0, 0, 0, e) for e in range(0, 7)) + good[proto]))
+        for j, (op, reply) in enumerate(replies):
+            for k, (name, s) in enumerate(judged):
+                yield {"kind": "hist", "proto": proto, "prelude": [["op", op, (j + k) % 5, reply.hex()]],
+                       "stream": s.hex(), "cuts": [1 + (j + k) % (len(s) - 1), len(s) // 2 + 1], "gaps": [0.05, 0.0],
+                       "segs": [name]}
+        # longer histories: several operations, earlier streams of every frame kind in between
+        earlier = b"".join(fr for _n, fr in kinds[proto])
+        for j, (op, reply) in enumerate(replies):
+            op2, reply2 = replies[(j + 3) % len(replies)]
+            for k, (name, s) in enumerate(judged[:2 * len(kinds[proto])]):
+                pre = [["op", op, j % 5, reply.hex()], ["rx", earlier.hex()], ["op", op2, (j + 1) % 5, reply2.hex()]]
+                if (j + k) % 2:
+                    pre = [["rx", kinds[proto][k % len(kinds[proto])][1].hex()]] + pre[::-1]
+                yield {"kind": "hist", "proto": proto, "prelude": pre, "stream": s.hex(),
+                       "cuts": [2 + (j * 3 + k) % (len(s) - 2)], "gaps": [0.25], "segs": [name]}
+
+
+def hist_strategy(proto):
+    valid = _luba_valid() if proto == "luba" else _sci_valid()
+    whole = st.one_of(valid, valid, valid, st.tuples(valid, st.integers(1, 255)).map(
+        lambda t: ("bad-checksum", t[0][1][:-1] + bytes([t[0][1][-1] ^ t[1]]))))
+    frames = st.lists(whole, min_size=0, max_size=3).map(lambda l: b"".join(b for _, b in l))
+    if proto == "luba":
+        natural = st.one_of(
+            st.tuples(st.just("info"), _data(20, 20).map(lambda d: RW.luba_frame(0x21, d))),
+            st.tuples(st.just("info"), st.sampled_from([list(range(1, 21)), [0] * 20]).map(lambda d: RW.luba_frame(0x21, d))),
+            st.tuples(st.just("settings"), st.tuples(st.sampled_from([0, 0, 1]), st.sampled_from([0x12, 0x12, 0]), BYTE).map(
+                lambda d: RW.luba_frame(0x2B, list(d)))),
+            st.tuples(st.just("send"), st.tuples(BYTE, st.sampled_from(POOL16)).map(lambda t: RW.luba_event_sent(t[0], t[1]))),
+        )
+    else:
+        natural = st.one_of(
+            st.tuples(st.just("info"), st.tuples(st.integers(0, 15), st.sampled_from([0, 0, 1, 7])).map(
+                lambda t: RW.sci_frame((t[0] << 4) | t[1], 0, 0, 3 if t[1] == 7 else 0))),
+            st.tuples(st.just("send"), st.tuples(st.integers(0, 15), st.sampled_from([0, 0, 1])).map(
+                lambda t: RW.sci_frame((t[0] << 4) | t[1], 0, 0, 0))),
+        )
+    step = st.one_of(
+        st.tuples(natural, frames, st.integers(0, 4)).map(lambda t: ["op", t[0][0], t[2], (t[0][1] + t[1]).hex()]),
+        st.tuples(natural, frames, st.integers(0, 4)).map(lambda t: ["op", t[0][0], t[2], (t[0][1] + t[1]).hex()]),
+        st.tuples(st.sampled_from(TX_OPS[proto]), frames, st.integers(0, 4)).map(lambda t: ["op", t[0], t[2], t[1].hex()]),
+        st.lists(whole, min_size=1, max_size=6).map(lambda l: ["rx", b"".join(b for _, b in l).hex()]),
+    )
+
+    def build(t):
+        c, pre, again = t
+        stream = bytes.fromhex(c["stream"])
+        if again and pre:
+            # what the history's gateway said is said again (in front of / behind the drawn stream)
+            b = bytes.fromhex(pre[again[0] % len(pre)][-1])
+            stream = b + stream if again[1] else stream + (bytes(30) if proto == "luba" else bytes((-len(stream)) % 5)) + b
+        return {"kind": "hist", "proto": proto, "prelude": pre, "stream": stream.hex(), "cuts": c["cuts"][0],
+                "gaps": c["gaps"][0], "segs": c["segs"]}
+    return st.tuples(stream_strategy(proto, False), st.lists(step, min_size=1, max_size=4),
+                     st.one_of(st.none(), st.tuples(st.integers(0, 3), st.booleans()))).map(build)
+
+
+def _hist_sweep_shard(arg):
+    k, nshards = arg
+    res = Result()
+    for idx, case in enumerate(_hist_sweep_cases()):
+        if idx % nshards != k:
+            continue
+        res.count()
+        vs = _judge_hist(case)
+        if vs is None:
+            res.excluded["set-aside:checksum-valid-frame-malformed-for-its-type"] += 1
+            continue
+        if _hist_nontrivial(case):
+            res.nontrivial()
+        for lab in _hist_classify(case):
+            res.label(lab)
+        for sig, msg in vs:
+            res.violation(sig, case, msg)
+    return res
+
+
 # ------------------------------------------------------------------- strategies ----
 BYTE = st.integers(0, 255)
 
@@ -954,6 +1269,9 @@ def _sweep2_cases():
 
 
 def _aside2(case):
+    if case["kind"] == "hist":
+        return _deframe(case["proto"], bytes.fromhex(case["stream"]))["malformed"] or \
+            not _prelude_ok(case["proto"], case["prelude"])
     if case["kind"] == "txmid":
         return _deframe(case["proto"], bytes.fromhex(case["stream"]))["malformed"]
     return any(_deframe(proto, st_)["malformed"] for proto, st_ in _rx_of(case))
@@ -988,8 +1306,9 @@ def _hyp2_shard(arg):
             return []
         return run_case(case)
 
-    strat = multi_strategy() if which == "multi" else txmid_strategy(which.split(":")[1])
-    hyp.search(strat, rc, res, n, seed, ID, nontrivial=nontrivial2, classify=classify2)
+    strat = multi_strategy() if which == "multi" else hist_strategy(which.split(":")[1]) if which.startswith("hist:") \
+        else txmid_strategy(which.split(":")[1])
+    hyp.search(strat, rc, res, n, seed, ID, nontrivial=_hist_nontrivial, classify=_hist_classify)
     return res
 
 
@@ -1152,6 +1471,11 @@ def run(ctx):
     ctx.pmap(_hyp2_shard, [("multi", ctx.seed * 1000 + 700 + k, n_multi) for k in range(4)] +
              [("txmid:luba", ctx.seed * 1000 + 800 + k, n_tx) for k in range(3)] +
              [("txmid:sci", ctx.seed * 1000 + 900, n_tx)])
+    ctx.pmap(_hist_sweep_shard, [(k, 16) for k in range(16)])
+    n_hist = 220 if ctx.quick else 6000
+    ctx.pmap(_hyp2_shard, [("hist:luba", ctx.seed * 1000 + 950 + k, n_hist) for k in range(2)] +
+             [("hist:sci", ctx.seed * 1000 + 960 + k, n_hist) for k in range(2)])
+    ctx.result.extra["hypothesis_examples_receiver_histories"] = {"hist (2 luba + 2 sci)": n_hist}
     ctx.result.exhaustive = False
     ctx.result.extra["hypothesis_examples_several_receivers"] = {"multi (4 shards)": n_multi, "txmid (3 luba + 1 sci)": n_tx}
     ctx.result.extra["hypothesis_examples_per_shard"] = {"luba (12 shards)": n_luba, "sci (4 shards)": n_sci}
